@@ -43,7 +43,17 @@ type OnCall struct {
 	Line    int
 }
 
+// WitnessDecl names a spec expression whose model value is wanted when an obligation of the function is refuted
+// (replay input). Bytes > 0: the expression is a byte slice; its length and first Bytes bytes are reported.
+type WitnessDecl struct {
+	Name  string
+	Expr  *SExpr
+	Bytes int
+	Src   string
+}
+
 type FuncSpec struct {
+	Witness     []*WitnessDecl
 	Name        string // full function name as printed by fnName, or "iface:<pkg.Iface.Method>", "fntype:<pkg.Type>"
 	ParamNames  []string
 	ResultNames []string
@@ -165,7 +175,7 @@ func (cs *Contracts) errf(file string, line int, f string, a ...interface{}) {
 	cs.Errors = append(cs.Errors, fmt.Sprintf("%s:%d: %s", file, line, fmt.Sprintf(f, a...)))
 }
 
-var headerRe = regexp.MustCompile(`^(func|iface|fntype)\s+(\S+?)(\([^)]*\))?\s*(\([^)]*\))?\s*$`)
+var headerRe = regexp.MustCompile(`^(func|iface|fntype|funcvar)\s+(\S+?)(\([^)]*\))?\s*(\([^)]*\))?\s*$`)
 
 func splitNames(s string) []string {
 	s = strings.Trim(s, "()")
@@ -204,7 +214,7 @@ func (cs *Contracts) parseFile(file string) {
 			word, rest = text[:i], strings.TrimSpace(text[i+1:])
 		}
 		switch word {
-		case "func", "iface", "fntype":
+		case "func", "iface", "fntype", "funcvar":
 			m := headerRe.FindStringSubmatch(text)
 			if m == nil {
 				cs.errf(file, line, "bad header %q", text)
@@ -471,6 +481,37 @@ func (cs *Contracts) clause(cur *FuncSpec, word, rest, file string, line int) {
 		default:
 			cs.errf(file, line, "loop N invariant|modifies")
 		}
+	case "witness", "witness-bytes":
+		// witness name: expr     |    witness-bytes name N: expr
+		i := strings.Index(rest, ":")
+		if i < 0 {
+			cs.errf(file, line, "%s name [N]: expr", word)
+			return
+		}
+		hd := strings.Fields(rest[:i])
+		wd := &WitnessDecl{Src: strings.TrimSpace(rest[i+1:])}
+		if word == "witness-bytes" {
+			if len(hd) != 2 {
+				cs.errf(file, line, "witness-bytes name N: expr")
+				return
+			}
+			fmt.Sscanf(hd[1], "%d", &wd.Bytes)
+			if wd.Bytes <= 0 {
+				cs.errf(file, line, "witness-bytes: bad N")
+				return
+			}
+		} else if len(hd) != 1 {
+			cs.errf(file, line, "witness name: expr")
+			return
+		}
+		wd.Name = hd[0]
+		ex, err := ParseSpec(wd.Src)
+		if err != nil {
+			cs.errf(file, line, "%v", err)
+			return
+		}
+		wd.Expr = ex
+		cur.Witness = append(cur.Witness, wd)
 	case "safety":
 		cur.SafetyProps = append(cur.SafetyProps, strings.FieldsFunc(strings.Trim(rest, "[]"), func(r rune) bool { return r == ' ' || r == ',' })...)
 	case "trusted":
@@ -490,6 +531,7 @@ func (cs *Contracts) clause(cur *FuncSpec, word, rest, file string, line int) {
 func (p *Program) expandHeaps(names []string) ([]string, error) {
 	var out []string
 	for _, n := range names {
+		n = normType(n)
 		switch {
 		case strings.HasPrefix(n, "cell:"), strings.HasPrefix(n, "ghost:"):
 			out = append(out, n)
